@@ -18,6 +18,7 @@ from . import tlc
 
 VERIF = os.path.dirname(os.path.dirname(os.path.abspath(__file__)))
 REPO = os.environ.get('VERIF_REPO_DIR', '/repo')
+OUT = os.environ.get('VERIF_OUT_DIR', VERIF)      # evidence/ and replays/ live here (scratch dir for mutant runs)
 VENV_PY = '/venv/bin/python'
 NCPU = 16
 
@@ -144,16 +145,16 @@ def match(pattern, obj):
 
 
 def write_evidence(prop, tier, seed, coverage, wall_s, violations, assumptions, level='model_checking'):
-    os.makedirs(os.path.join(VERIF, 'evidence'), exist_ok=True)
+    os.makedirs(os.path.join(OUT, 'evidence'), exist_ok=True)
     ev = {'property_id': prop, 'tier': tier, 'seed': seed, 'level': level, 'coverage': coverage,
           'assumptions': assumptions, 'wall_s': round(wall_s, 2), 'violations': violations}
-    with open(os.path.join(VERIF, 'evidence', prop + '.json'), 'w') as f:
+    with open(os.path.join(OUT, 'evidence', prop + '.json'), 'w') as f:
         json.dump(ev, f, indent=1, sort_keys=True)
     return ev
 
 
 def save_replay(prop, name, payload):
-    d = os.path.join(VERIF, 'replays', prop)
+    d = os.path.join(OUT, 'replays', prop)
     os.makedirs(d, exist_ok=True)
     p = os.path.join(d, name + '.json')
     json.dump(payload, open(p, 'w'), indent=1, sort_keys=True)
